@@ -150,7 +150,7 @@ def handle (j : Json) : Json :=
   let excl :=
     (if HdrDecodedNil canon i then ["HdrDecodedNil"] else []) ++
     (if HdrArrayNoItems canon i then ["HdrArrayNoItems"] else []) ++
-    (if EmptyMapStrict o i then ["EmptyMapStrict"] else [])
+    []
   let skipped := skippedB i
   let sel := if skipped || i.responses.isEmpty then none else statusLookup i.responses i.status
   let branches :=
